@@ -63,9 +63,17 @@ HStop(s, id) ==
   ELSE IF Echo /\ Registered(s, id) THEN R(Stop(s, id), <<Msg("complete", id)>>)
   ELSE R(Stop(s, id), <<>>)
 
+\* graphql-ws refuses an init by terminating everything that runs on the connection (silently) - the connection stays
+StopAll(s) == [s EXCEPT !.reg = [i \in OpIds |-> 0],
+                        !.ex = [k \in KS |-> IF s.ex[k].st = "none" THEN NoEx ELSE [s.ex[k] EXCEPT !.canc = TRUE]]]
+
 TwsReact(s, sym, k) ==
   CASE sym = "init" -> IF ~s.inited THEN R([s EXCEPT !.inited = TRUE], <<Msg("connection_ack", "")>>)
                        ELSE CloseWith(s, 4429)
+    [] sym = "initrej" -> IF ~s.inited THEN CloseWith(s, 4401) ELSE CloseWith(s, 4429)
+    [] sym = "subbad" -> IF ~s.inited THEN CloseWith(s, 4401)
+                         ELSE IF Impl = "ref" THEN CloseWith(s, 4400) ELSE R(s, <<>>)   \* pinned: ignored
+    [] sym = "readerr" -> R(s, <<>>)
     [] sym = "ping" -> R(s, <<Msg("pong", "")>>)
     [] sym = "pong" -> R(s, <<>>)
     [] sym = "missingid" ->
@@ -83,6 +91,9 @@ TwsReact(s, sym, k) ==
 
 GwsReact(s, sym, k) ==
   CASE sym = "init" -> R([s EXCEPT !.inited = TRUE], <<Msg("connection_ack", "")>>)
+    [] sym = "initrej" -> R(StopAll(s), <<Msg("connection_error", "")>>)
+    [] sym = "subbad" -> IF Impl = "ref" THEN R(s, <<Msg("connection_error", "")>>) ELSE R(s, <<>>)
+    [] sym = "readerr" -> R(s, <<Msg("connection_error", "")>>)
     [] sym \in {"ping", "pong", "unknown"} -> R(s, <<Msg("connection_error", "")>>)
     [] sym \in {"malformed", "binary"} ->
          IF Impl = "ref" THEN R(s, <<Msg("connection_error", "")>>) ELSE R(s, <<Msg("error", "")>>)
@@ -124,7 +135,6 @@ AfterEng(s, k, what) ==
     [] OTHER         -> IF Impl = "ref" THEN [free EXCEPT !.ex[k] = over]  \* error of a subscription round
                         ELSE [s EXCEPT !.ex[k] = again]                    \* pinned: polling goes on, the id stays taken
 
-Alphabet == IF Proto = "tws"
-            THEN {"init", "ping", "pong", "sub1q", "sub1s", "sub2q", "comp1", "comp9", "unknown", "malformed", "missingid", "binary"}
-            ELSE {"init", "ping", "pong", "sub1q", "sub1s", "sub2q", "comp1", "comp9", "unknown", "malformed", "missingid", "binary"}
+Alphabet == {"init", "initrej", "ping", "pong", "sub1q", "sub1s", "sub2q", "subbad", "comp1", "comp9", "unknown", "malformed",
+             "missingid", "binary", "readerr"}
 =============================================================================
